@@ -50,7 +50,8 @@ func runC02(c *Ctx) {
 	}
 	c.R.Rule = fmt.Sprintf("random operation sequences (createBucket/headBucket/deleteBucket/listBuckets/put/get/head/delete/multiDelete/copy incl. self-copy and cross-bucket copy), %d sequences of length ≤ %d per backend instance and configuration (auto-bucket on/off), over 2–3 buckets × 6 keys chosen to collide (nested keys sharing prefixes; on the fs backends a second universe without file/directory conflicts); every response is compared with the Lean model and with the Lean reference model Spec.S3; non-trivial = distinct (backend, sequence) containing at least one overwrite, delete or copy", nSeq, maxLen)
 	colliding := c02Universe{[]string{"bk1", "bk2", "bk3"}, []string{"a", "a/b", "a/b/c", "ab", "a.b", "b"}, "colliding"}
-	nested := c02Universe{[]string{"bk1", "bk2", "bk3"}, []string{"x", "d/e", "d/f/g", "d-e", "d.e", "h/i"}, "nested"}
+	// incl. keys with a path segment that equals a bucket's own name
+	nested := c02Universe{[]string{"bk1", "bk2", "bk3"}, []string{"x", "d/e", "d/f/g", "d-e", "d.e", "h/i", "arc/bk1/f", "arc/bk2/g/h", "arc/" + impl.SingleBucketName + "/f"}, "nested"}
 	// the Backend interface itself (no HTTP) against the backend's own Lean model (Model/Bolt)
 	for _, kind := range c.kinds(impl.AllKinds) {
 		apiSequences(c, kind, nSeq*2, maxLen)
